@@ -862,6 +862,9 @@ structure Client where
   /-- `(version, content)` pairs returned to this client so far -/
   issued : List (Nat × Content) := []
   pending : Option Pending := none
+  /-- only used by the NON-atomic variant (`splitCheck` …): passed the version check, not yet
+  committed -/
+  passed : Option Pending := none
 
 /-- a successful `apply_source` -/
 structure Success where
@@ -912,11 +915,33 @@ inductive Step where
   the normalised request string, so an in-root directory link gives one file several keys): the
   disk changes, this key's tracked document does not -/
   | aliasWrite (new : Content)
+  /-- NOT what the code does — the locked section of `apply_source` torn into three: version check
+  under the lock, unlock; disk write; re-lock and commit.  Present only to show what the theorems
+  rest on (`c19_counterexample_split_apply`). -/
+  | splitCheck (i : Nat)
+  | splitWrite (i : Nat)
+  | splitCommit (i : Nat)
 
 /-- the steps covered by the optimistic-concurrency protocol -/
 def Step.versioned : Step → Bool
   | .beginOpen _ | .beginApply .. | .finish _ | .override _ | .syncAll => true
   | _ => false
+
+/-- **The locked section of `apply_source` as ONE transition**: resync with the earlier unlocked
+read, version check, `fs::write`, bump and commit all happen while `inner` is held
+(`ide.rs`, `apply_source`: one `guard` from `ensure_session` to the end of the function), so no
+step of another client can fall between the check and the commit.  `c19_no_lost_update_partial`,
+`c19_version_chain_partial`, `c19_one_success_per_version_partial` and
+`c19_disk_is_last_success_partial` depend on exactly this. -/
+def applyLocked (s : PState) (i : Nat) (p : Pending) : PState :=
+  match applyDoc s.entry p.disk p.expected p.new with
+  | (d, none) =>
+    { s with entry := some d, clients := upd s.clients i { (s.clients i) with pending := none } }
+  | (d, some v) =>
+    { s with entry := some d, disk := some p.new
+             clients := upd s.clients i { issued := (v, p.new) :: (s.clients i).issued, pending := none }
+             successes := s.successes ++ [{ client := i, expected := p.expected, version := v
+                                            content := p.new, base := p.base, diskBefore := s.disk }] }
 
 def next (s : PState) : Step → PState
   | .beginOpen i =>
@@ -942,15 +967,7 @@ def next (s : PState) : Step → PState
         let d := syncDoc s.entry p.disk
         { s with entry := some d
                  clients := upd s.clients i { issued := (d.version, p.disk) :: (s.clients i).issued, pending := none } }
-      else
-        match applyDoc s.entry p.disk p.expected p.new with
-        | (d, none) =>
-          { s with entry := some d, clients := upd s.clients i { (s.clients i) with pending := none } }
-        | (d, some v) =>
-          { s with entry := some d, disk := some p.new
-                   clients := upd s.clients i { issued := (v, p.new) :: (s.clients i).issued, pending := none }
-                   successes := s.successes ++ [{ client := i, expected := p.expected, version := v
-                                                  content := p.new, base := p.base, diskBefore := s.disk }] }
+      else applyLocked s i p
   | .override t => { s with entry := some (syncDoc s.entry t) }
   | .syncAll =>
     match s.disk with
@@ -976,6 +993,29 @@ def next (s : PState) : Step → PState
     match s.disk with
     | none => s
     | some _ => { s with disk := some new }
+  | .splitCheck i =>
+    match (s.clients i).pending with
+    | none => s
+    | some p =>
+      let d := syncDoc s.entry p.disk
+      if d.version ≠ p.expected then
+        { s with entry := some d, clients := upd s.clients i { (s.clients i) with pending := none } }
+      else
+        { s with entry := some d
+                 clients := upd s.clients i { (s.clients i) with pending := none, passed := some p } }
+  | .splitWrite i =>
+    match (s.clients i).passed with
+    | none => s
+    | some p => { s with disk := some p.new }
+  | .splitCommit i =>
+    match (s.clients i).passed with
+    | none => s
+    | some p =>
+      let v := satSucc (curVer s)
+      { s with entry := some { content := p.new, version := v }
+               clients := upd s.clients i { issued := (v, p.new) :: (s.clients i).issued }
+               successes := s.successes ++ [{ client := i, expected := p.expected, version := v
+                                              content := p.new, base := p.base, diskBefore := s.disk }] }
 
 def run (s : PState) : List Step → PState
   | [] => s
